@@ -393,11 +393,21 @@ private:
       //       and the seq-cst fence (3)
       XENIUM_THREAD_FENCE(std::memory_order_acquire);
 
+      // The orphans have to be adopted _before_ the global epoch gets updated. As long as the global
+      // epoch is still curr_epoch, this list can only contain nodes from the previous incarnation of
+      // new_epoch. Once the global epoch has been updated, other threads may concurrently abandon
+      // nodes that were retired in new_epoch to the very same list; these nodes must not be deleted yet.
+      auto* adopted_orphans = adopt_orphans(new_epoch);
+
       // (7) - this release-CAS synchronizes-with the acquire-load (5)
       bool success = global_epoch.compare_exchange_strong(
         curr_epoch, new_epoch, std::memory_order_release, std::memory_order_relaxed);
       if (XENIUM_LIKELY(success)) {
-        reclaim_orphans(new_epoch);
+        detail::delete_objects(adopted_orphans);
+      } else if (adopted_orphans != nullptr) {
+        // some other thread has updated the epoch in the meantime, so the adopted list may already
+        // contain nodes from the current epoch -> hand them back.
+        return_orphans(new_epoch, adopted_orphans);
       }
     }
     return new_epoch;
@@ -405,10 +415,14 @@ private:
 
   void add_retired_node(detail::deletable_object* p) { retire_lists[local_epoch_idx].push(p); }
 
-  void reclaim_orphans(epoch_t epoch) {
-    auto idx = epoch % number_epochs;
-    auto* nodes = orphans[idx].adopt();
-    detail::delete_objects(nodes);
+  detail::deletable_object* adopt_orphans(epoch_t epoch) { return orphans[epoch % number_epochs].adopt(); }
+
+  void return_orphans(epoch_t epoch, detail::deletable_object* nodes) {
+    auto* last = nodes;
+    while (last->next != nullptr) {
+      last = last->next;
+    }
+    orphans[epoch % number_epochs].add({nodes, last});
   }
 
   unsigned critical_entries_since_update = 0;
